@@ -146,6 +146,8 @@ func vProbe(in *VInst, sess robust.Id, line string) []string {
 	return out
 }
 
+var vC14Twin vTwinSlot
+
 func init() {
 	vMonitors["C14"] = func(c *VCtx) {
 		if c.Step.Panic != nil {
@@ -169,6 +171,13 @@ func init() {
 				actor = "services"
 			}
 			c.Report("MaxChannels exceeded by "+actor+" "+vEntryCmd(&c.Step.Entry), fmt.Sprintf("%d channels with limit %d after %s", len(i.channels), maxC, c.Step.Entry.String()))
+		}
+		// the same entry on a node that was restored from a snapshot of the pre-state: the invariants hold there too
+		if tw, st := vC14Twin.apply(c); st != nil && st.Panic == nil && c.Changed {
+			c.Count("c14_states_checked_on_a_restored_node")
+			for _, b := range vInvariants(tw.Srv) {
+				c.Report(b[0]+" on a node restored from a snapshot, after "+vEntryCmd(&c.Step.Entry), fmt.Sprintf("the pre-state went through Marshal/Unmarshal, then %s: %s (%s)", c.Step.Entry.String(), b[0], b[1]))
+			}
 		}
 		if !c.Changed {
 			return
